@@ -4,6 +4,7 @@ other (random order per seed) to a scratch copy of the package and run all twent
 must stay silent; the number of undecided obligations shows how much of the heavily reshaped code is still decided.
 
     selftest/stack.py [seed ...]        (default seeds 1..8; scratch copies under mkdtemp, removed afterwards)
+    STACK_REWRITES=1 selftest/stack.py ...   additionally applies six random whole-package rewrites on top of each stack
     selftest/stack.py --breaking seed   on top of one stack, each confirmed BREAKING change that still applies is applied
                                         alone and the check of its own property is run: how much of the detection
                                         survives when the code around the defect has been refactored
@@ -42,6 +43,23 @@ def one(seed):
             applied.append(os.path.basename(os.path.dirname(p)))
         for junk in glob.glob(os.path.join(d, 'trees', '*.orig')) + glob.glob(os.path.join(d, 'trees', '*.rej')):
             os.remove(junk)
+        if os.environ.get('STACK_REWRITES'):
+            # on top of the stack: a random sequence of six whole-package rewrites (selftest/rewrites.py)
+            sys.path.insert(0, HERE)
+            import rewrites
+            import warnings
+            combo = '+'.join(random.Random(seed * 7919).sample(sorted(rewrites.REWRITES), 6))
+            for fn in sorted(os.listdir(os.path.join(d, 'trees'))):
+                if fn.endswith('.py'):
+                    pth = os.path.join(d, 'trees', fn)
+                    with open(pth, encoding='utf-8') as fh:
+                        src = fh.read()
+                    with warnings.catch_warnings():
+                        warnings.simplefilter('ignore')
+                        out = rewrites.apply(combo, src)
+                        compile(out, fn, 'exec')
+                    with open(pth, 'w', encoding='utf-8') as fh:
+                        fh.write(out)
         sys.path.insert(0, ROOT)
         from ttsa.core import Program, AnalysisError
         from ttsa import props
